@@ -25,7 +25,8 @@ LEVEL_TEXT = ("Each JSON value of a bounded-exhaustive grammar (depth<=3 over 47
               " Also values nested 200-1300 levels (beyond the fast backend's native 254/1024 limits), built and compared iteratively inside the workers."
               " Also each backend's encodings fed through the library's real line reader (one line in, one message out)."
               ' Also decode-scribble-decode and encode-edit-encode call histories.'
-              ' Also load() on text and binary files positioned after a first line, for documents only the standard-library parser accepts.')
+              ' Also load() on text and binary files positioned after a first line, for documents only the standard-library parser accepts.'
+              ' Also dump()/load() through text handles that are not UTF-8 (cp1252, latin-1, ascii with replace / backslashreplace, utf-16), compared between the backends.')
 LEVEL_NOTE = ("Trusted: sys.modules['orjson']=None before import really disables orjson (the worker reports HAS_ORJSON and "
               "the run is inconclusive if both workers report the same); Python's pickle to ship values to the workers.")
 RULE = ("values from grammar V3 (exhaustive) + all single C0/boundary code points + seeded random values (depth<=6, nesting "
